@@ -14,7 +14,8 @@ RULE = ("all 12 ordered pairs of {kelvin, celsius, fahrenheit, Rankine} x {no pr
         "is repeated after compound units carrying a scale at exponents -1, 2, -2 were converted and compared across scales "
         "and after new declarations (history); distinct = "
         "(source scale, target scale, prefix side, prefix, magnitude bucket); non-trivial = source scale != target scale "
-        "or a prefix is involved")
+        "or a prefix is involved"
+        " The history also declares user scales anchored on each stock unit, and applies augmented assignment to quantities returned by quantify()/unprefixed().")
 ASSUMPTIONS = [
     "oracle: C = K - 273.15, F = R - 459.67, R = 9/5 K evaluated in Fraction; a prefix multiplies the scale reading",
     "tolerance 1e-9 relative to the expected reading plus 1e-9 relative to the largest kelvin-sized intermediate "
